@@ -19,6 +19,11 @@ CHECKS = {
    text="Proved: over every history of requests and restarts the state rank of every surviving object never decreases and stays in {PreActive, Active, Deactivated, Compromised}; the only transitions are PA->A (Activate), A->D (Revoke), *->C (Revoke key compromise); only Activate/Revoke change state; Encrypt/Decrypt/Sign/SignatureVerify/MAC/wrapping-key success implies Active + kind + mask bit for any backend answer; DeriveKey needs the Derive Key bit; Destroy refused when Active. Tied to /repo by all lifecycle sequences to depth 3 (quick) / 4 (thorough) over a 34-letter alphabet and by random depth-40 histories, each compared with the model incl. store dumps; monitors check monotonicity and guards on the implementation alone.",
    note=TRUST + "The cryptography backend is replaced by a scripted stand-in (the guards are proved for every backend answer).",
    ref="§5 C04"),
+ "C05": dict(
+   technique="Lean 4 round-trip theorem for the key-wrapping-data dictionary <-> columns conversion + Register/Get fidelity and persistence theorems on the engine model; end-to-end correspondence through the real client library, wire encoding, engine and SQLite with engine restarts",
+   text="Proved: a Normal key wrapping data dictionary survives flattening into the 32 columns and the any()-based reconstruction exactly (wrapping_roundtrip), absent stays absent, and the all-falsy parameter sets are characterised as the ones that are dropped (witness); Register stores exactly the registered type, value bytes, key format, type-specific field, and algorithm/length for keys whatever the template says; Get returns exactly the stored fields (SecretData always reported with key format Opaque - witness); over any later history and restarts value, type, algorithm, length, format and type-specific field of a stored object never change; server-assigned attributes (owner, initial date, default policy name, Pre-Active). Tied to /repo end to end: every one of the seven object types (19 value/format kinds incl. wrapped keys and multi-name objects) is registered through the real ProxyKmipClient, encoded, decoded by the server-side decoder, processed by the real engine with real cryptography and SQLite, the engine re-created on the same file for two thirds of the cases, and read back with Get / GetAttributes / GetAttributeList under each of the six versions; field-wise equality and exact attribute sets are the monitor. The wire hop relies on C01.",
+   note=TRUST + "Partial: pie-level objects only express what the pie API can express (e.g. SecretData has no key format parameter); the SQLAlchemy/SQLite round trip is exercised, not modelled.",
+   ref="§5 C05"),
  "C07": dict(
    technique="Lean 4 store invariant (strictly increasing identifiers below the sequence) proved for every effect and lifted over histories with restarts",
    text="Proved: identifiers of stored objects are pairwise distinct in every reachable state; objects appearing later carry either an identifier already present or one >= the old sequence value (never reused); an issued identifier that is no longer stored never reappears, across any history and restarts; operations on it answer Item Not Found with the standard text; Locate returns only live, permitted identifiers. Tied to /repo by histories biased to destroy-newest-then-create / restart-then-create with the engine re-created on the same SQLite file.",
